@@ -1,9 +1,28 @@
 import re
 from dataclasses import dataclass
-from typing import Optional, Dict, AsyncIterable
+from typing import Optional, Dict, AsyncIterable, List
 
 # Borrowed from mysql-connector-python
 REGEX_PARAM = re.compile(r"""\?(?=(?:[^"'`]*["'`][^"'`]*["'`])*[^"'`]*$)""")
+
+
+def find_params(sql: str) -> List[int]:
+    """
+    Positions of the `?` placeholders in a statement.
+
+    Same placeholders as REGEX_PARAM (a question mark followed by an even number of
+    quote characters), found in a single pass.
+    """
+    positions = []
+    quotes = 0
+    for i in range(len(sql) - 1, -1, -1):
+        c = sql[i]
+        if c in "\"'`":
+            quotes += 1
+        elif c == "?" and quotes % 2 == 0:
+            positions.append(i)
+    positions.reverse()
+    return positions
 
 
 @dataclass
